@@ -25,6 +25,7 @@ RULE = (
     "whole context, cancellation arriving while the context is already shutting down, a 2..100 ms timeout around the context that fires while it is being entered) x (context entered as StdioClient, through stdio_client() or through the StdioTransport wrapper) x (moment: before the first message, request in flight, after a response); the product is enumerated (quick: every (behaviour, exit path) pair with rotating moments; thorough: full product x 3 jitters); "
     "measured by the harness: context exit duration <= 2 x 1 s grace + 3 s slack, no /proc entry (running or zombie) for the child at the very moment the context has been left and again after a <=1 s settle, open-fd count equal to the count before entry, a request "
     "pending when the child dies ends in an exception, an unstartable command makes entering raise; non-trivial = behaviour other than well-behaved or exit path other than normal; distinct = distinct cell"
+    "; added in rounds 6-7 of the seeded changes: 10 unstartable commands (one per errno) + scripted sweep of 19 spawn failures; server LOG_LEVEL env x stderr-flooding children; session inside an outer deadline; logging at DEBUG"
 )
 ASSUMPTIONS = [
     "wall-clock test of a real-time property on the real OS: a timing failure is reported only if it reproduces in 3 of 3 re-executions, a leftover process in 2 of 3; an overloaded machine yields inconclusive (exit 2), never a violation",
